@@ -162,6 +162,18 @@ def corr_strings(ctx, rep, mdl):
             pairs.append((a, rand_text(rng)))
         reqs.append("style.paint_strings %d %s" % (n, " ".join("%s %s" % (a, hx(t)) for a, t in pairs)) if n else "style.paint_strings 0")
         metas.append(pairs)
+    # exhaustive ordered pairs over a basis of styles: every branch of Difference::between
+    basis = ["-:-:00000000"] + ["-:-:" + "0" * k + "1" + "0" * (7 - k) for k in range(8)] + \
+        ["b1:-:00000000", "f1:-:00000000", "f200:-:00000000", "r1,2,3:-:00000000", "-:b2:00000000", "-:f2:00000000",
+         "-:r4,5,6:00000000", "b1:b2:00000000", "b4:b2:00000000", "b1:f22:10000000", "b1:-:10010000", "-:f52:00000001",
+         "r1,2,3:r4,5,6:11111111", "b1:-:01000000"]
+    if not ctx.quick():
+        basis += [rand_ansi(rng, plain_p=0) for _ in range(30)]
+    for a in basis:
+        for b in basis:
+            reqs.append("style.paint_strings 2 %s %s %s %s" % (a, hx("ab"), b, hx("cd")))
+            metas.append([(a, "ab"), (b, "cd")])
+    rep.exhaustive = dict(between_pairs=len(basis) ** 2, basis=len(basis))
     impl = ctx.hook().ask(reqs)
     model = mdl.ask(reqs) if mdl else [None] * len(reqs)
     outs = []
